@@ -7,6 +7,7 @@ import (
 	"fmt"
 	"go/token"
 	"go/types"
+	"sort"
 
 	"golang.org/x/tools/go/ssa"
 )
@@ -27,6 +28,8 @@ func checkC02(w *World, r *Report) {
 	r.Rule("R02.1", "accept loops never run a handler that waits on the accepted stream/connection synchronously", 2)
 	r.Rule("R02.2", "Channel implementations hold no connection state; OpenConnection does not store into its receiver", 2)
 	r.Rule("R02.3", "no per-stream open/negotiation inside the upstream mutex", 1)
+	r.Rule("R02.4", "every io.CopyBuffer call uses a buffer that is private to that copy", 10)
+	r.Rule("R02.5", "only session set-up failure and Shutdown close the shared physical connection", 2)
 
 	ruleAcceptLoopNotOccupied(w, r, "R02.1", map[string]bool{"stream": true}, nil)
 	ruleAcceptLoopNotOccupied(w, r, "R02.1", map[string]bool{"listener": true}, func(al acceptLoop) bool {
@@ -94,6 +97,11 @@ func checkC02(w *World, r *Report) {
 			r.Check(bad == "", "R02.2", key, pos, "no connection-typed field; OpenConnection leaves the receiver untouched", bad)
 		}
 	}
+
+	// R02.4 copy buffers are private to one copier
+	ruleFreshCopyBuffers(w, r, "R02.4")
+	// R02.5 a failure of one logical stream never closes the shared physical session
+	ruleSharedSessionClosers(w, r, "R02.5")
 
 	// R02.3
 	conn := w.Method("internal/client/upstream", "Upstreams", "Connect")
@@ -351,8 +359,10 @@ func checkC17(w *World, r *Report) {
 	r.Rule("R17.1", "close only after the copy into that side finished; EOF reported only after a clean copy", 2)
 	r.Rule("R17.2", "both ends closed after PipeData on every path", 3)
 	r.Rule("R17.3", "DNS end-of-stream only after buffered data; client Close notifies the server first", 3)
+	r.Rule("R17.4", "open transfers are not cut by another logical connection's failure (who may close the shared session)", 2)
 	ruleR17_1(w, r)
 	ruleBothEndsClosed(w, r, "R17.2")
+	ruleSharedSessionClosers(w, r, "R17.4")
 
 	eofVar := w.ByPath["io"].Types.Scope().Lookup("EOF")
 	hasData := w.Method("internal/streams/dns/util", "InQueue", "HasData")
@@ -480,4 +490,167 @@ func checkC17(w *World, r *Report) {
 		bad = "no path through Close sends the final acknowledgement and the Closed option"
 	}
 	r.Check(bad == "", "R17.3", key, w.Pos(m.Pos()), fmt.Sprintf("%d path(s); %d notify (ack, then Closed option) before closing the communicator, the rest are already-closed / pre-handshake", paths, notified), bad, "paths", paths)
+}
+
+// ruleFreshCopyBuffers: the scratch buffer handed to io.CopyBuffer must be
+// allocated for that copy (make in the same function, or in the caller that
+// passes it down to exactly that copier), never taken from a pool, a global
+// or a field: two concurrent copiers sharing a buffer leak one connection's
+// bytes into another.
+func ruleFreshCopyBuffers(w *World, r *Report, rule string) {
+	var fns []*ssa.Function
+	for fn := range allModuleFuncs(w, w.SSA()) {
+		fns = append(fns, fn)
+	}
+	sort.Slice(fns, func(i, j int) bool { return fns[i].Pos() < fns[j].Pos() })
+	var fresh func(v ssa.Value, fn *ssa.Function, depth int) (bool, string)
+	fresh = func(v ssa.Value, fn *ssa.Function, depth int) (bool, string) {
+		for _, root := range provenance(v, provOpts{}) {
+			switch x := root.(type) {
+			case *ssa.MakeSlice:
+			case *ssa.Const:
+				if !x.IsNil() {
+					return false, "constant"
+				}
+			case *ssa.Slice:
+				if _, ok := x.X.(*ssa.Alloc); !ok {
+					return false, "re-slice of " + x.X.String()
+				}
+			case *ssa.Parameter:
+				if depth > 2 {
+					return false, "buffer parameter passed down too deep"
+				}
+				idx := paramIndex(fn, x)
+				obj := fnObj(fn)
+				n := 0
+				for _, caller := range fns {
+					for _, c := range callsIn(caller) {
+						if obj == nil || c.Common().StaticCallee() != fn {
+							continue
+						}
+						n++
+						// a buffer created by the caller must go to one copier only
+						arg := c.Common().Args[idx]
+						if ok, why := fresh(arg, caller, depth+1); !ok {
+							return false, why
+						}
+						uses := 0
+						if refs := arg.Referrers(); refs != nil {
+							for _, ref := range *refs {
+								if _, isCall := ref.(ssa.CallInstruction); isCall {
+									uses++
+								}
+							}
+						}
+						if uses > 1 {
+							return false, "the same buffer is handed to more than one copier"
+						}
+					}
+				}
+				if n == 0 {
+					return false, "buffer comes from an unknown caller"
+				}
+			default:
+				return false, fmt.Sprintf("buffer comes from %s", root.String())
+			}
+		}
+		return true, ""
+	}
+	for _, fn := range fns {
+		ord := 0
+		for _, c := range callsIn(fn) {
+			if !isPkgFunc(sCallee(c), "io", "CopyBuffer") {
+				continue
+			}
+			key := fmt.Sprintf("call:io.CopyBuffer@%s#%d", ssaFuncKey(fn), ord)
+			ord++
+			ok, why := fresh(c.Common().Args[2], fn, 0)
+			r.Check(ok, rule, key, w.Pos(c.Pos()), "scratch buffer is allocated for this copy", "the copy's scratch buffer is not private to it ("+why+"): while one logical connection's copier is still running, another connection can be handed the same memory and its peer receives foreign bytes")
+		}
+	}
+}
+
+// ruleSharedSessionClosers: who may close Upstreams.connection / .session.
+func ruleSharedSessionClosers(w *World, r *Report, rule string) {
+	ups := w.Named("internal/client/upstream", "Upstreams")
+	connF, sessF := fieldOf(ups, "connection"), fieldOf(ups, "session")
+	if connF == nil || sessF == nil {
+		r.Undecided(rule, "type:client/upstream.Upstreams", "-", "anchor unresolved")
+		return
+	}
+	n := 0
+	for fn := range allModuleFuncs(w, w.SSA()) {
+		for _, c := range callsIn(fn) {
+			t := closeTarget(w, c)
+			if t == nil {
+				continue
+			}
+			var fld *types.Var
+			for _, root := range rootsOf(w, t) {
+				if isLoadOfField(root, connF) {
+					fld = connF
+				}
+				if isLoadOfField(root, sessF) {
+					fld = sessF
+				}
+			}
+			if fld == nil {
+				continue
+			}
+			n++
+			key := fmt.Sprintf("close:Upstreams.%s@%s", fld.Name(), ssaFuncKey(fn))
+			name := ""
+			f0 := fn
+			for f0.Parent() != nil {
+				f0 = f0.Parent()
+			}
+			if o := fnObj(f0); o != nil {
+				name = o.Name()
+			}
+			switch name {
+			case "Shutdown":
+				r.Hold(rule, key, w.Pos(c.Pos()), "closed by Shutdown")
+			case "creteSession":
+				// only when the multiplexer could not be set up
+				okc := false
+				for _, c2 := range callsIn(fn) {
+					call, isCall := c2.(*ssa.Call)
+					if !isCall {
+						continue
+					}
+					f := sCallee(c2)
+					if f == nil || f.Pkg() == nil || f.Pkg().Path() != "github.com/xtaci/smux" || f.Name() != "Client" {
+						continue
+					}
+					var errv ssa.Value
+					for _, ref := range *call.Referrers() {
+						if ex, ok := ref.(*ssa.Extract); ok && ex.Index == 1 {
+							errv = ex
+						}
+					}
+					if errv != nil && dominatedByCond(fn, c, func(v ssa.Value) bool {
+						x, _, ok := nilTest(v)
+						if !ok {
+							return false
+						}
+						for _, root := range provenance(x, provOpts{}) {
+							if root == errv {
+								return true
+							}
+						}
+						return x == errv
+					}, true) {
+						// nil test "!= nil" true ; dominatedByCond with want=true on a NEQ test means err != nil
+						okc = true
+					}
+				}
+				r.Check(okc, rule, key, w.Pos(c.Pos()), "closed only when the multiplexer session could not be created", "the freshly opened physical connection is closed on a path other than a failed session set-up")
+			default:
+				r.Violate(rule, key, w.Pos(c.Pos()), "the physical connection shared by all logical connections is closed by "+ssaFuncKey(fn)+": a failure that concerns one logical connection (e.g. a refused channel) cuts every other transfer in flight")
+			}
+		}
+	}
+	if n == 0 {
+		r.Undecided(rule, "close:Upstreams.*", "-", "no close of the shared connection found (Shutdown changed?)")
+	}
 }
